@@ -15,7 +15,7 @@ from props import common as C
 
 ID = 'C20'
 QUICK_RUNS = 2000
-THOROUGH_RUNS = 250000
+THOROUGH_RUNS = 120000
 MAX_EXCLUDED_FRACTION = 0.1
 SHRINK_RUNS = 300
 SHRINK_S = 60
